@@ -91,6 +91,50 @@ func runDump(w *World, args []string) {
 		for _, n := range fs.Notes {
 			fmt.Printf("   note: %s %s\n", w.Pos(n.Pos), n.Text)
 		}
+	case "bounds":
+		// dump bounds <pkg-prefix>: unproved sites of every decoder-like function
+		tot, open := 0, 0
+		for _, key := range w.sortedFuncKeys() {
+			if len(args) > 1 && !strings.HasPrefix(key, args[1]) {
+				continue
+			}
+			fi := w.Funcs[key]
+			if !w.isDecoderLike(fi) {
+				continue
+			}
+			fs := w.Interpret(fi, "decode")
+			seen := map[string]bool{}
+			n, bad := 0, 0
+			var lines []string
+			for _, s := range fs.Sites {
+				k := fmt.Sprintf("%d|%s|%s", s.Pos, s.Kind, s.Text)
+				if seen[k] {
+					continue
+				}
+				seen[k] = true
+				n++
+				for _, nd := range s.Needs {
+					if ok, _ := Prove(nd.A, nd.B, s.Facts); !ok {
+						bad++
+						lines = append(lines, fmt.Sprintf("      OPEN %s %s %s: %v <= %v", w.Pos(s.Pos), s.Kind, s.Text, nd.A, nd.B))
+						break
+					}
+				}
+			}
+			tot += n
+			open += bad
+			fmt.Printf("%-55s sites=%d open=%d loops=%d\n", key, n, bad, len(fs.Loops))
+			for _, l := range lines {
+				fmt.Println(l)
+			}
+			for _, l := range fs.Loops {
+				fmt.Printf("      loop %s %s cond=%s bounded=%q\n", w.Pos(l.Pos), l.Kind, l.Cond, l.Bounded)
+			}
+			for _, nt := range fs.Notes {
+				fmt.Printf("      note %s %s\n", w.Pos(nt.Pos), nt.Text)
+			}
+		}
+		fmt.Println("total sites", tot, "open", open)
 	case "facts":
 		for _, k := range w.KindsL {
 			if k.Len == nil || k.Marshal == nil {
